@@ -6,5 +6,5 @@ CONSTANTS
   MaxLevel = 6
   Inits = {"empty"}
   Patterns = {"rand"}
-  Emit = TRUE
-INVARIANTS ModelOK EmitCase
+  Emit = "state"
+INVARIANTS EmitCase
